@@ -20,6 +20,7 @@ import (
 	"github.com/invopop/gobl"
 	"github.com/invopop/gobl/bill"
 	"github.com/invopop/gobl/cbc"
+	"github.com/invopop/gobl/currency"
 	"github.com/invopop/gobl/schema"
 	"github.com/invopop/gobl/tax"
 	"github.com/invopop/yaml"
@@ -279,6 +280,30 @@ func Run(c *core.Ctx) int {
 			}
 			b, _ := json.Marshal(obj)
 			cases = append(cases, Case{Name: fmt.Sprintf("random-%d", i), Data: b, Doc: d})
+		}
+		// an externally supplied rounding finer than the currency, on a grid around zero: the payable
+		// amount adds it to the unrounded total, so for some grid value the sum lies next to a half
+		// unit and any later change of the stored rounding shows in the second calculation
+		for i, m := 0, c.Pick(60, 3000); i < m; i++ {
+			d := calcproto.Gen(c.Rng, calcproto.GenOpts{NoRounding: true})
+			sub := uint32(2)
+			if def := currency.Code(d.Cur).Def(); def != nil {
+				sub = def.Subunits
+			}
+			for v := int64(-9); v <= 9; v++ {
+				if v == 0 {
+					continue
+				}
+				dd := *d
+				dd.Rounding = &calcproto.Amt{V: v, E: sub + 1}
+				obj, err := schema.NewObject(dd.Invoice())
+				if err != nil {
+					continue
+				}
+				b, _ := json.Marshal(obj)
+				dcopy := dd
+				cases = append(cases, Case{Name: fmt.Sprintf("rounding-grid-%d/%d", i, v), Data: b, Doc: &dcopy})
+			}
 		}
 	}
 
